@@ -358,7 +358,7 @@ fn spawn(exe: &Path, id: &str, tier: Tier, w: usize, nw: usize, dir: &Path, from
 }
 
 pub fn work_dir(id: &str) -> PathBuf {
-    let d = PathBuf::from(format!("/verif/.work/{}-{}", id, std::process::id()));
+    let d = PathBuf::from(format!("{}/.work/{}-{}", crate::root(), id, std::process::id()));
     let _ = std::fs::remove_dir_all(&d);
     std::fs::create_dir_all(&d).expect("work dir");
     d
